@@ -58,6 +58,9 @@ def gen_charges(rng, shells):
         pts[k] = list(pts[j])
         classes.add("q:same-site")
     q = np.exp(rng.uniform(np.log(0.1), np.log(100), size=n)) * rng.choice([-1.0, 1.0], size=n)
+    if rng.random() < 0.25:
+        q = np.sign(q) * np.maximum(1.0, np.rint(np.abs(q)))  # atomic numbers / formal charges
+        classes.add("q:integer-valued")
     return pts, [float(v) for v in q], sorted(classes)
 
 
@@ -155,10 +158,11 @@ def run_case(case):
     dg = np.abs(np.einsum("iin->in", ref))
     scale = np.sqrt(dg[:, None, :] * dg[None, :, :])
     qk = rkind if rkind not in ("int", "f32") else "c"
-    V = cm.call(point_charge_integral, cm.build(shells), cm.rep_typed(pts, rkind), cm.rep(q, qk))
+    qint = bool(np.array_equal(q, np.rint(q)) and nk % 2 == 0 and rkind != "int")  # integer-valued charges as an integer array (with float coordinates)
+    V = cm.call(point_charge_integral, cm.build(shells), cm.rep_typed(pts, rkind), np.array(q, dtype=int) if qint else cm.rep(q, qk))
     cm.compare(V, ref, TOL, "point_charge_integral", "point_charge", viols, errs, scale=scale, ls=cm.ls_of(shells))
     evals = 1
-    N = cm.call(nuclear_electron_attraction_integral, cm.build(shells), cm.rep_typed(pts, rkind), cm.rep(q, qk))
+    N = cm.call(nuclear_electron_attraction_integral, cm.build(shells), cm.rep_typed(pts, rkind), np.array(q, dtype=int) if qint else cm.rep(q, qk))
     nref = ref.sum(axis=2)
     nscale = np.abs(ref).sum(axis=2)
     # the property's yardstick for the matrix: sum over charges of the per-charge scales
@@ -174,7 +178,7 @@ def run_case(case):
     ls = cm.ls_of(shells)
     near = any(np.linalg.norm(pts - np.array(s["c"]), axis=1).min() < 1.0 for s in shells)
     nontrivial = near and (len(set(ls)) > 1 or len(ls) == 1)
-    return {"evals": evals, "nontrivial": bool(nontrivial), "classes": case.get("classes", []) + ["rep:" + rkind], "errs": errs, "violations": viols}
+    return {"evals": evals, "nontrivial": bool(nontrivial), "classes": case.get("classes", []) + ["rep:" + rkind] + (["q:int-array"] if qint else []), "errs": errs, "violations": viols}
 
 
 def run_many(case, shells, pts, q, rs):
